@@ -96,6 +96,13 @@ func init() {
 				}
 				t = fmt.Sprintf(p, args...)
 			}
+			if f == "colour" && k%2 == 1 {
+				// argument class "colour written with a leading #": the styles with an odd index use it; a
+				// reader may drop the # on the way out (both spellings decode to the same style), but nothing
+				// may rewrite the registered value
+				siDecTab[f][t] = k
+				t = "#" + t
+			}
 			siTokTab[f] = append(siTokTab[f], t)
 			siDecTab[f][t] = k
 		}
@@ -111,9 +118,56 @@ type siFV struct{ field, val string }
 
 // siOwner names the style all field values come from: "s<k>", "foreign" (some value no style
 // gave) or "mixed" (values of different styles).
+// siPartial: concretisation class "element only partly specified" (set per behaviour): a style that sets a
+// multi-attribute element gives a value to ONE attribute of it (font: eastAsia, spacing: before, indentation:
+// left) and leaves the others empty. An empty value of such an attribute then means "not specified by the
+// style that owns the element" and is skipped; a non-empty one is decoded like any other value (a value
+// that leaked in from another style makes the owner "mixed").
+var siPartial bool
+var siBlanked = map[string]bool{"font.ascii": true, "font.hAnsi": true, "font.cs": true, "font.eastAsia": true,
+	"spacing.before": true, "spacing.after": true, "spacing.line": true, "spacing.lineRule": true,
+	"ind.left": true, "ind.firstLine": true, "ind.right": true}
+
+// siBlank: styles with an odd index keep one attribute (font: eastAsia, spacing: before, indentation: left),
+// styles with an even index keep the complementary ones, so that a child and its parent specify
+// DIFFERENT attributes of the same element.
+func siBlank(st *style.Style, k int) {
+	if !siPartial {
+		return
+	}
+	odd := k%2 == 1
+	if st.RunPr != nil && st.RunPr.FontFamily != nil {
+		f := st.RunPr.FontFamily
+		if odd {
+			f.ASCII, f.HAnsi, f.CS = "", "", ""
+		} else {
+			f.EastAsia = ""
+		}
+	}
+	if st.ParagraphPr != nil && st.ParagraphPr.Spacing != nil {
+		sp := st.ParagraphPr.Spacing
+		if odd {
+			sp.After, sp.Line, sp.LineRule = "", "", ""
+		} else {
+			sp.Before = ""
+		}
+	}
+	if st.ParagraphPr != nil && st.ParagraphPr.Indentation != nil {
+		in := st.ParagraphPr.Indentation
+		if odd {
+			in.FirstLine, in.Right = "", ""
+		} else {
+			in.Left = ""
+		}
+	}
+}
+
 func siOwner(fv ...siFV) string {
 	k0 := -1
 	for _, x := range fv {
+		if siPartial && x.val == "" && siBlanked[x.field] {
+			continue
+		}
 		k := siDec(x.field, x.val)
 		if k == 0 {
 			return "foreign"
@@ -123,6 +177,9 @@ func siOwner(fv ...siFV) string {
 		} else if k != k0 {
 			return "mixed"
 		}
+	}
+	if k0 == -1 {
+		return "foreign" // an element without a single value
 	}
 	return fmt.Sprintf("s%d", k0)
 }
@@ -436,6 +493,7 @@ type siOpts struct {
 	viaCreate bool // define through CreateCustomStyle + filling in the returned object
 	keepPre   bool // predefined styles stay registered as bystanders (variant 0 only; they are part of the fingerprint)
 	tablePr   bool // styles also carry table properties (not judged; noise for the merge)
+	partial   bool // multi-attribute elements are only partly specified (see siPartial)
 }
 
 func siMakeOpts(caseID int) siOpts {
@@ -459,6 +517,7 @@ func siMakeOpts(caseID int) siOpts {
 	o.viaCreate = r.Intn(3) == 0
 	o.keepPre = r.Intn(4) == 0
 	o.tablePr = r.Intn(4) == 0
+	o.partial = r.Intn(3) == 0
 	return o
 }
 
@@ -513,6 +572,7 @@ var siC *siChild
 func (c *siChild) reset(caseID int) {
 	c.caseID = caseID
 	c.opt = siMakeOpts(caseID)
+	siPartial = c.opt.partial
 	c.sms = c.fresh()
 	c.lastH = ""
 	c.pristine = true
@@ -563,6 +623,7 @@ func (c *siChild) define(sm *style.StyleManager, v, k int, b string, x, y bool) 
 			a.set(st, k)
 		}
 	}
+	siBlank(st, k)
 	if o.emptyPr {
 		siPPr(st)
 		siRPr(st)
@@ -892,6 +953,7 @@ func (c *siChild) step(i int, op Op, quiet bool) Ev {
 					a.set(st, k)
 				}
 			}
+			siBlank(st, k)
 			return "ok"
 		})
 	case "Resolve":
